@@ -27,7 +27,7 @@ NOTE = "Trusted: enumeration of 'all models created by this load' = main model p
 DECL = ["p1", "p2", "project_root"]
 UNDECL = ["zz", "q1"]
 GRAPHS = [((),), ((1,), ()), ((1,), (0,)), ((1, 2), (2,), ()), ((1,), (2,), (0,)), ((0, 1), (1, 2), (2, 0))]
-MODES = ["importuri", "importuri-grepo", "rrel", "globalrepo", "globalrepo-grepo"]
+MODES = ["importuri", "importuri-grepo", "importuri-searchpath", "fqn-importuri", "importuri-glob", "rrel", "globalrepo", "globalrepo-grepo"]
 
 
 def make(mode, d):
@@ -40,7 +40,13 @@ def make(mode, d):
     mm = metamodel_from_str(mfiles.GRAMMAR_RREL if mode == "rrel" else mfiles.GRAMMAR, **kw)
     mm.model_param_defs.add("p1", "first")
     mm.model_param_defs.add("p2", "second")
-    if mode.startswith("importuri"):
+    if mode == "importuri-searchpath":
+        mm.register_scope_providers({"*.*": P.PlainNameImportURI(search_path=[d])})
+    elif mode == "importuri-glob":
+        mm.register_scope_providers({"*.*": P.PlainNameImportURI(glob_args={"recursive": True})})
+    elif mode == "fqn-importuri":
+        mm.register_scope_providers({"*.*": P.FQNImportURI()})
+    elif mode.startswith("importuri"):
         mm.register_scope_providers({"*.*": P.PlainNameImportURI()})
     elif mode.startswith("globalrepo"):
         mm.register_scope_providers({"*.*": P.PlainNameGlobalRepo(os.path.join(d, "*.m"))})
